@@ -54,7 +54,7 @@ pub fn ty_json<'tcx>(tcx: TyCtxt<'tcx>, t: Ty<'tcx>) -> J {
         }
         ty::Adt(def, args) => J::obj(vec![
             ("k", J::s("adt")),
-            ("path", J::s(tcx.def_path_str(def.did()))),
+            ("path", J::s(crate::dps(tcx, def.did()))),
             ("crate", J::s(crate_of(tcx, def.did()))),
             ("local", J::Bool(def.did().is_local())),
             ("args", args_json(tcx, args)),
@@ -84,14 +84,14 @@ pub fn ty_json<'tcx>(tcx: TyCtxt<'tcx>, t: Ty<'tcx>) -> J {
             let ups = args.as_closure().upvar_tys();
             J::obj(vec![
                 ("k", J::s("closure")),
-                ("body", J::s(tcx.def_path_str(*did))),
+                ("body", J::s(crate::dps(tcx, *did))),
                 ("local", J::Bool(did.is_local())),
                 ("upvars", J::Arr(ups.iter().map(|e| ty_json(tcx, e)).collect())),
             ])
         }
         ty::FnDef(did, args) => J::obj(vec![
             ("k", J::s("fndef")),
-            ("def", J::s(tcx.def_path_str(*did))),
+            ("def", J::s(crate::dps(tcx, *did))),
             ("crate", J::s(crate_of(tcx, *did))),
             ("args", args_json(tcx, args)),
         ]),
@@ -201,7 +201,7 @@ fn rvalue_json<'tcx>(tcx: TyCtxt<'tcx>, rv: &Rvalue<'tcx>) -> J {
                 }
                 AggregateKind::Adt(did, variant, args, _, active) => {
                     v.push(("kind", J::s("adt")));
-                    v.push(("path", J::s(tcx.def_path_str(*did))));
+                    v.push(("path", J::s(crate::dps(tcx, *did))));
                     v.push(("local", J::Bool(did.is_local())));
                     v.push(("variant", J::Num(variant.as_usize() as i128)));
                     let adt = tcx.adt_def(*did);
@@ -213,7 +213,7 @@ fn rvalue_json<'tcx>(tcx: TyCtxt<'tcx>, rv: &Rvalue<'tcx>) -> J {
                 }
                 AggregateKind::Closure(did, args) => {
                     v.push(("kind", J::s("closure")));
-                    v.push(("body", J::s(tcx.def_path_str(*did))));
+                    v.push(("body", J::s(crate::dps(tcx, *did))));
                     let _ = args;
                 }
                 other => {
@@ -244,17 +244,17 @@ pub fn callee_json<'tcx>(
     args: GenericArgsRef<'tcx>,
 ) -> J {
     let mut v: Vec<(&str, J)> = vec![
-        ("def", J::s(tcx.def_path_str(did))),
+        ("def", J::s(crate::dps(tcx, did))),
         ("crate", J::s(crate_of(tcx, did))),
         ("name", J::s(tcx.item_name(did).to_string())),
         ("args", args_json(tcx, args)),
-        ("s", J::s(tcx.def_path_str_with_args(did, args))),
+        ("s", J::s(crate::dpsa(tcx, did, args))),
     ];
     let unsafe_ = matches!(tcx.def_kind(did), DefKind::Fn | DefKind::AssocFn)
         && tcx.fn_sig(did).skip_binder().safety().is_unsafe();
     v.push(("unsafe", J::Bool(unsafe_)));
     if let Some(tr) = tcx.trait_of_assoc(did) {
-        v.push(("trait", J::s(tcx.def_path_str(tr))));
+        v.push(("trait", J::s(crate::dps(tcx, tr))));
     }
     if let Some(imp) = tcx.inherent_impl_of_assoc(did) {
         let st = tcx.type_of(imp).instantiate_identity().skip_norm_wip();
@@ -270,12 +270,12 @@ pub fn callee_json<'tcx>(
                 _ => "shim",
             };
             v.push(("resolved", J::s(kind)));
-            v.push(("rdef", J::s(tcx.def_path_str(rd))));
+            v.push(("rdef", J::s(crate::dps(tcx, rd))));
             v.push(("rcrate", J::s(crate_of(tcx, rd))));
             v.push(("rargs", args_json(tcx, inst.args)));
             v.push(("shim", J::s(format!("{:?}", inst.def).split('(').next().unwrap_or(""))));
             if rd.is_local() && matches!(inst.def, ty::InstanceKind::Item(_)) {
-                v.push(("local_body", J::s(tcx.def_path_str(rd))));
+                v.push(("local_body", J::s(crate::dps(tcx, rd))));
             }
             if let Some(imp) = tcx.impl_of_assoc(rd) {
                 let st = tcx.type_of(imp).instantiate_identity().skip_norm_wip();
@@ -294,11 +294,11 @@ pub fn dump_body<'tcx>(tcx: TyCtxt<'tcx>, ldid: LocalDefId) -> J {
     let body: &Body<'tcx> = tcx.optimized_mir(did);
     let env = ty::TypingEnv::post_analysis(tcx, did);
     let mut v: Vec<(&str, J)> = Vec::new();
-    v.push(("id", J::s(tcx.def_path_str(did))));
+    v.push(("id", J::s(crate::dps(tcx, did))));
     v.push(("kind", J::s(format!("{:?}", kind))));
     let root = tcx.typeck_root_def_id(did);
     if root != did {
-        v.push(("parent", J::s(tcx.def_path_str(root))));
+        v.push(("parent", J::s(crate::dps(tcx, root))));
     }
     if matches!(kind, DefKind::Fn | DefKind::AssocFn) {
         v.push(("name", J::s(tcx.item_name(did).to_string())));
@@ -316,7 +316,7 @@ pub fn dump_body<'tcx>(tcx: TyCtxt<'tcx>, ldid: LocalDefId) -> J {
             vec![("self", ty_json(tcx, st)), ("self_s", J::s(st.to_string()))];
         if tcx.impl_opt_trait_ref(imp).is_some() {
             let tr = tcx.impl_trait_ref(imp).instantiate_identity().skip_norm_wip();
-            iv.push(("trait", J::s(tcx.def_path_str(tr.def_id))));
+            iv.push(("trait", J::s(crate::dps(tcx, tr.def_id))));
             iv.push(("trait_s", J::s(tr.to_string())));
             iv.push(("trait_args", args_json(tcx, tr.args)));
         }
@@ -332,7 +332,12 @@ pub fn dump_body<'tcx>(tcx: TyCtxt<'tcx>, ldid: LocalDefId) -> J {
     }
     for gg in chain.iter().rev() {
         for p in &gg.own_params {
-            gnames.push(J::s(p.name.to_string()));
+            let kind = match p.kind {
+                ty::GenericParamDefKind::Lifetime => "lifetime",
+                ty::GenericParamDefKind::Type { .. } => "type",
+                ty::GenericParamDefKind::Const { .. } => "const",
+            };
+            gnames.push(J::obj(vec![("name", J::s(p.name.to_string())), ("kind", J::s(kind))]));
         }
     }
     v.push(("generics", J::Arr(gnames)));
@@ -352,7 +357,7 @@ pub fn dump_body<'tcx>(tcx: TyCtxt<'tcx>, ldid: LocalDefId) -> J {
     for (i, d) in body.local_decls.iter().enumerate() {
         locals.push(J::obj(vec![
             ("ty", ty_json(tcx, d.ty)),
-            ("s", J::s(d.ty.to_string())),
+            ("s", J::s(crate::tys(d.ty))),
             ("name", names[i].clone().map(J::s).unwrap_or(J::Null)),
             ("needs_drop", J::Bool(d.ty.needs_drop(tcx, env))),
         ]));
@@ -450,7 +455,7 @@ fn block_json<'tcx>(
                 ("k", J::s("drop")),
                 ("place", place_json(place)),
                 ("ty", ty_json(tcx, pty)),
-                ("ty_s", J::s(pty.to_string())),
+                ("ty_s", J::s(crate::tys(pty))),
                 ("target", J::Num(target.as_usize() as i128)),
                 ("unwind", unwind_json(unwind)),
                 ("effects", eff),
